@@ -33,7 +33,7 @@ type Gen struct {
 	Ops       string // operators allowed for inner nodes, e.g. ".afir|R"
 	IllTyped  bool   // also generate raw ill-typed documents
 	Subsets   bool
-	ConcField []string // if set, field names are chosen among these instead of being symbolic
+	ConcField []string    // if set, field names are chosen among these instead of being symbolic
 	StopLinks []*refval.V // candidate links for a stop-at condition on a recursion clause
 }
 
